@@ -297,6 +297,9 @@ func (r *Run) Finish() int {
 	if len(r.samples) == 0 {
 		cov["samples"] = []interface{}{"(no case executed)"}
 	}
+	if r.assumptions == nil {
+		r.assumptions = []string{}
+	}
 	ev := map[string]interface{}{
 		"property_id": r.ID, "tier": r.Tier, "seed": r.seed, "level": r.Level,
 		"coverage": cov, "assumptions": r.assumptions,
